@@ -117,7 +117,9 @@ fn gen_message(gen: &Gen, acc: &mut Acc, rng: &mut Rng, max_units: usize) -> Seq
     let mut st = Style::plain();
     st.seed = rng.next();
     st.case = rng.below(3) as u8;
-    let units: Vec<(Vec<Expect>, bool)> = ast.units.iter().map(|u| (u.expects.clone(), u.fault.is_some())).collect();
+    // a unit counts as failing if it is labelled faulty or its declaration's handler fails
+    let units: Vec<(Vec<Expect>, bool)> =
+        ast.units.iter().map(|u| (u.expects.clone(), u.fault.is_some() || u.expects.iter().any(|e| matches!(e, Expect::Err(_))))).collect();
     SeqMsg { bytes: ast.render(&st), expects: ast.expects(), alts: MsgExpect::from_units(&units), desc: format!("{} units{}", ast.units.len(), if trailing { " + ';'" } else { "" }) }
 }
 
